@@ -89,7 +89,7 @@ struct JSON {
                 while (offset < length && (content[offset] == JSONotation::QuoteChar)) {
                     ++offset;
                     const Char_T *str = (content + offset);
-                    SizeT         len = JSONUtils::UnEscape(str, length, stream);
+                    SizeT         len = JSONUtils::UnEscape(str, (length - offset), stream);
 
                     if (len != 0) {
                         offset += len;
